@@ -587,6 +587,13 @@ func c20Run(c core.Case) core.Result {
 		env := stick.New(&stick.MemoryLoader{Templates: tpls})
 		var err error
 		var pan string
+		if len(c.N) > 0 && c.N[0] == 1 {
+			// history: another template with the same (broken) contents has been loaded on this environment before
+			tpls["first-"+name] = c.Src
+			tpls["twin.twig"] = c.Src
+			tryEnvParse(env, "twin.twig")
+			tryExec(env, "first-"+name, nil)
+		}
 		if via == "parse" {
 			_, err, pan = tryEnvParse(env, entry)
 		} else {
@@ -744,7 +751,7 @@ func c20Levels(tier string) []core.Level {
 				}
 			}
 		}},
-		{Name: "errors raised while loading a named template identify it: 6 broken templates x 20 names (incl. '%' sequences, spaces, non-ASCII, ' in ', names of 53..260 bytes, names that share a long prefix, a line break, blanks or line breaks at either end) x {direct, parse, include, extends, import, embed, use}", Gen: func(emit func(core.Case)) {
+		{Name: "errors raised while loading a named template identify it (also when templates of other names with the same broken contents were loaded on the environment before): 6 broken templates x 20 names (incl. '%' sequences, spaces, non-ASCII, ' in ', names of 53..260 bytes, names that share a long prefix, a line break, blanks or line breaks at either end) x {direct, parse, include, extends, import, embed, use}", Gen: func(emit func(core.Case)) {
 			broken := []string{"x{% if %}", "{{ a", "{% bogus %}", "{{ a $ }}", "t{% for i in x %}", "{% include %}"}
 			for _, b := range broken {
 				for _, name := range []string{"a", "a.html.twig", "dir/b.twig", "my tpl.twig", "100%.twig", "a%20b.twig", "%s", "report_%d.twig", "{0}.twig", "a\\b.twig", "ü€.twig", "a:b", "x in y.twig",
@@ -755,6 +762,7 @@ func c20Levels(tier string) []core.Level {
 					"bad.twig\n", "\tdir/bad.twig ", " lead", "trail ", "\n"} {
 					for _, via := range []string{"direct", "parse", "include", "extends", "import", "embed", "use"} {
 						emit(core.Case{Fam: "name", Src: b, Args: []string{name, via}})
+						emit(core.Case{Fam: "name", Src: b, Args: []string{name, via}, N: []int{1}})
 					}
 				}
 			}
